@@ -319,13 +319,15 @@ impl<'a> Run<'a> {
             self.metrics.lock().push(metrics);
         }
 
-        // Remove from running.
-        self.running.write().remove(module.as_ref());
+        // Insert into updated map no matter what. This needs to happen
+        // before removing from running or a thread arriving in between
+        // will update the module again.
+        self.updated.write().insert(module.clone().into_owned());
         #[cfg(routinator_verif)]
         crate::verif::preempt("rsync-between-bookkeeping");
 
-        // Insert into updated map no matter what.
-        self.updated.write().insert(module.into_owned());
+        // Remove from running.
+        self.running.write().remove(module.as_ref());
         #[cfg(routinator_verif)]
         crate::verif::preempt("rsync-after-bookkeeping");
     }
